@@ -2,8 +2,8 @@
 containers.
 
 box = dict(kind='para'|'block'|'columns', id, st, n, lineH, kids, span=False)
-      a 'columns' box has count (column-count), balance (column-fill: balance | auto); its kids are stage-1
-      boxes, those with span=True carry `column-span: all` (paragraphs or childless blocks).
+      a 'columns' box has count (column-count), balance (column-fill: balance | auto), gap (column-gap, px); its kids are stage-1
+      boxes, those with span=True carry `column-span: all` (paragraphs, childless blocks, blocks with children).
 Document = dict(pageH, pageW, ltr, root).
 """
 from fractions import Fraction
@@ -20,6 +20,9 @@ def box_wire(box, inherited_page=''):
         return ['para', box['id'], box['n'], box['lineH'], pm.style_wire(box['st'], inherited_page)]
     kids = [box_wire(k, page) for k in box['kids']]
     if box['kind'] == 'columns':
+        if box.get('gap'):
+            return ['columns', box['id'], pm.style_wire(box['st'], inherited_page), box['count'], box['balance'],
+                    box['gap'], [bool(k.get('span')) for k in box['kids']], kids]
         return ['columns', box['id'], pm.style_wire(box['st'], inherited_page), box['count'], box['balance'],
                 [bool(k.get('span')) for k in box['kids']], kids]
     return ['block', box['id'], pm.style_wire(box['st'], inherited_page), kids]
@@ -38,7 +41,7 @@ def box_html(box):
     extra = ''
     if box['kind'] == 'columns':
         fill = 'balance' if box['balance'] else 'auto'
-        extra = f';column-count:{box["count"]};column-gap:0;column-fill:{fill}'
+        extra = f';column-count:{box["count"]};column-gap:{pm.px(box.get("gap", 0))};column-fill:{fill}'
     return f'<div id="n{box["id"]}" style="{pm.css_of(box["st"], "block")}{extra}{span}">{inner}</div>'
 
 
@@ -51,7 +54,7 @@ def doc_html(doc):
     extra = ''
     if body['kind'] == 'columns':
         fill = 'balance' if body['balance'] else 'auto'
-        extra = f';column-count:{body["count"]};column-gap:0;column-fill:{fill}'
+        extra = f';column-count:{body["count"]};column-gap:{pm.px(body.get("gap", 0))};column-fill:{fill}'
     return (
         f'<html id="n{root["id"]}" style="direction:{direction};{pm.css_of(root["st"], "block")}"><head><style>'
         f'@page{{size:{pm.px(width)} {pm.px(doc["pageH"])};margin:0}}</style></head>'
@@ -104,8 +107,8 @@ def run_real(doc):
 
 def resume_wire(resume, box, line_of):
     """The code's nested one-key dict, cut at the line box. Below a columns container the key is the
-    position among the container's children; a span paragraph is resumed with its line-level stack
-    directly under that key (columns_layout drops one level)."""
+    position among the container's children; a spanning child is resumed at its own level (d7e3d63), like
+    a child of a block."""
     if resume is None:
         return 'none'
     (index, sub), = resume.items()
@@ -116,8 +119,6 @@ def resume_wire(resume, box, line_of):
     child = box['kids'][index] if index < len(box['kids']) else None
     if sub is None or child is None:
         return ['n', index, 'none']
-    if box['kind'] == 'columns' and child.get('span') and child['kind'] == 'para':
-        return ['n', index, ['l', line_of.get((child['id'], repr(sub)), 'unknown')]]
     return ['n', index, resume_wire(sub, child, line_of)]
 
 
@@ -230,7 +231,15 @@ def gen_doc(rng, size=None, mode=None):
                 kids.append(block(depth + 1, in_cols))
             else:
                 kids.append(para(in_cols))
-        return dict(kind='block', id=nid(), st=style('block', in_cols), kids=kids)
+        st = style('block', in_cols)
+        if not kids and rng.random() < 0.3:
+            # an empty block with `height: 0` collapses through like one with `height: auto` (block.py:
+            # `box.height in ('auto', 0)`); with margins on both sides the difference is visible
+            st['height'] = Fraction(0)
+            if rng.random() < 0.7:
+                st['mt'] = Fraction(rng.choice([2, 4, 8])) * unit
+                st['mb'] = Fraction(rng.choice([2, 4, 8])) * unit
+        return dict(kind='block', id=nid(), st=st, kids=kids)
 
     def columns(cmode):
         kids = []
@@ -238,13 +247,18 @@ def gen_doc(rng, size=None, mode=None):
         for _ in range(n_kids):
             budget[0] -= 1
             if cmode in ('span', 'mixed') and rng.random() < (0.4 if cmode == 'span' else 0.2):
-                if rng.random() < 0.8:
+                r_span = rng.random()
+                if r_span < 0.6:
                     kid = para(True)
                     kid['n'] = rng.choice([1, 1, 1, 2, 3, 5])
-                else:
+                elif r_span < 0.8:
                     kid = dict(kind='block', id=nid(), st=style('block', True), kids=[])
                     if rng.random() < 0.7:
                         kid['st']['height'] = Fraction(rng.choice([2, 4, 10])) * unit
+                else:
+                    # a spanning block with block children (resumed at its own level since d7e3d63)
+                    budget[0] = max(budget[0], 2)
+                    kid = block(2, True)
                 kid['span'] = True
             elif rng.random() < 0.3:
                 kid = block(2, True)
@@ -262,7 +276,9 @@ def gen_doc(rng, size=None, mode=None):
             balance = rng.random() < 0.6
             if rng.random() < 0.3:
                 st['height'] = Fraction(rng.choice([1, 2, 3, 4, 6])) * line_h + rng.choice([0, 0, line_h / 2])
-        return dict(kind='columns', id=nid(), st=st, count=count, balance=balance, kids=kids)
+        # column-gap: the used column width (192 - (count - 1) * gap) / count stays a dyadic rational
+        gap = Fraction(rng.choice([0, 0, 0, 6, 12, 24]))
+        return dict(kind='columns', id=nid(), st=st, count=count, balance=balance, gap=gap, kids=kids)
 
     def outer_block(depth):
         """A stage-1 block that may hold the container."""
@@ -320,7 +336,7 @@ def gen_doc(rng, size=None, mode=None):
         for kid in body_kids:
             if rng.random() < 0.2 and (kid['kind'] == 'para' or not kid['kids']):
                 kid['span'] = True
-        body.update(kind='columns', count=count, balance=rng.random() < 0.6)
+        body.update(kind='columns', count=count, balance=rng.random() < 0.6, gap=Fraction(rng.choice([0, 0, 12])))
     root = dict(kind='block', id=nid(), st=root_st, kids=[body])
     return dict(pageH=Fraction(page_h), pageW=Fraction(PAGE_W), ltr=rng.random() < 0.8, root=root)
 
